@@ -185,6 +185,7 @@ Section PriorFacts.
     prior_unary es = true <-> exists x u, num_children es x u = 1.
   Proof. unfold prior_unary. rewrite existsb_exists. split.
     - intros [x [_ H]]. apply existsb_exists in H. destruct H as [p [_ H1]]. apply Z.eqb_eq in H1.
+      rewrite num_children_l_eq in H1.
       exists x, p. exact H1.
     - intros [x [u H1]].
       destruct (unary_descent es L Hrange u (Z.to_nat (x + 1)) x ltac:(destruct (Z.lt_ge_cases x 0); lia) H1)
@@ -194,7 +195,7 @@ Section PriorFacts.
         * left. apply in_map_iff. exists (edge_at es i). split; [exact Hk|apply nth_In; exact Hi].
         * right. apply in_map_iff. exists (edge_at es i). split; [exact Hk|apply nth_In; exact Hi].
       + apply existsb_exists. exists u. split; [apply changed_parents_spec; exact Hch|].
-        apply Z.eqb_eq. exact H10. Qed.
+        apply Z.eqb_eq. rewrite num_children_l_eq. exact H10. Qed.
 End PriorFacts.
 
 (** brute-force reference = the existential, for positions inside the sequence and nodes below
@@ -206,7 +207,7 @@ Proof. unfold ref_unary, zrange0. rewrite existsb_exists. split.
   - intros [x [Hx H]]. apply in_map_iff in Hx. destruct Hx as [k [<- Hk]]. apply in_seq in Hk.
     apply existsb_exists in H. destruct H as [u [Hu H]]. apply in_seq in Hu.
     apply andb_true_iff in H. destruct H as [Hm H1]. apply negb_true_iff in Hm. apply Z.eqb_eq in H1.
-    exists (Z.of_nat k), u. repeat split; try lia; assumption.
+    rewrite num_children_l_eq in H1. exists (Z.of_nat k), u. repeat split; try lia; assumption.
   - intros [x [u [Hx [Hu [Hm H1]]]]]. exists x. split.
     + apply in_map_iff. exists (Z.to_nat x). split; [lia|]. apply in_seq. lia.
-    + apply existsb_exists. exists u. split; [apply in_seq; lia|]. rewrite Hm, H1. reflexivity. Qed.
+    + apply existsb_exists. exists u. split; [apply in_seq; lia|]. rewrite num_children_l_eq, Hm, H1. reflexivity. Qed.
